@@ -24,6 +24,20 @@ def run_binary(workdir, binary, sched, seed, name, race=False, timeout=3600, ext
     if p.returncode != 0 or "DATA RACE" in out:
         if "panic:" in out or "fatal error:" in out or "HANG:" in out or "DATA RACE" in out:
             return tp, {"crash": out[-6000:]}
+        if p.returncode == 4 and "scenario could not be set up" in out and os.path.exists(tp):
+            # the engine gave up while preparing a later scenario; what it observed before that is still judged
+            # (a change that corrupts the node's state can make the next set-up impossible)
+            by_op, n = {}, 0
+            with open(tp) as f:
+                for line in f:
+                    try:
+                        op = json.loads(line).get("op", "")
+                    except ValueError:
+                        break
+                    n += 1
+                    by_op[op] = by_op.get(op, 0) + 1
+            if n > 0:
+                return tp, {"partial": out[-3000:], "steps": n, "by_op": by_op, "behaviours": by_op.get("Reset", 0)}
         raise vp.Machinery("%s failed (%d):\n%s" % (binary, p.returncode, out[-4000:]))
     return tp, json.load(open(stp))
 
@@ -67,6 +81,9 @@ def run(chk, binary, sched, label, module, consts, invariants, replay_kind, race
                        "consts": {k: sorted(x) if isinstance(x, (set, frozenset)) else x
                                   for k, x in consts.items() if not isinstance(x, (vp.Sub, vp.Raw))},
                        "invariants": list(invariants)}, why)
+    if stats.get("partial"):
+        raise vp.Machinery("%s stopped before the end of its schedule (nothing it had observed until then violates "
+                           "the property):\n%s" % (binary, stats["partial"]))
     return v, stats
 
 
